@@ -304,3 +304,18 @@ Lemma gen_simd_fp_operators_ok :
      (3 <=? List.length (filter (fun e : nat * nat * bool * nat * nat * nat * bool => let '(t, o, c, w', _, s, _) := e in (t =? ty) && (o =? op) && negb c && (w' =? w) && (s =? op)) gen_simd_fp_operators)))
     (flat_map (fun ty => flat_map (fun op => map (fun w => (ty, op, w)) [1; 2; 3]) [1; 2; 3; 4]) [0; 1]) = true.
 Proof. split; vm_compute; reflexivity. Qed.
+
+(** * Three-tensor networks (network_contraction.h extractor_contract_3, opmin_meta.h triplet_flop_cost): each
+    branch of which_variant - as translated - is a pairwise order: the first einsum contracts two of the tensors
+    under their own index lists, its result is given the index list resulting_index_k that the cost model defines
+    from that same pair, and the second einsum contracts it with the third tensor under the third index list; the
+    three branches are the three pairs.  (That any pairwise order gives the same result is the C15 theorem.) *)
+Definition network3_ok (e : nat * (nat * nat) * (nat * nat) * nat * (nat * nat) * nat * nat * bool) : bool :=
+  let '(v, (ia, ib), (oa, ob), k, (ka, kb), ic, oc, _) := e in
+  (ia =? oa) && (ib =? ob) && (k =? v) && (ka =? ia) && (kb =? ib) && (ic =? oc) &&
+  negb (ic =? ia) && negb (ic =? ib) && (ia <? ib) && (ic <? 3) && (ib <? 3).
+Lemma gen_network3_ok :
+  forallb network3_ok gen_network3 = true /\
+  map (fun e : nat * (nat * nat) * (nat * nat) * nat * (nat * nat) * nat * nat * bool => let '(v, p, _, _, _, _, _, _) := e in (v, p)) gen_network3
+  = [(0, (0, 1)); (1, (0, 2)); (2, (1, 2))].
+Proof. split; reflexivity. Qed.
